@@ -2,7 +2,7 @@
 C09 (source tie) — the hand-written model of the decision of `Queue::schedule_task`
 (`KM.Queue.scheduleWith`, Queue/Queue.lean) equals the definition that the translator `pure_fns`
 regenerates from the closure body in `/repo/src/commons/queue.rs` on every run
-(`Generated/PureFns.lean`, `KM.Gen.Queue.schedule_task`).
+(`Generated/PureFnsC09.lean`, `KM.Gen.Queue.schedule_task`).
 
 `soonest_keeps_earlier`, `if_missing_keeps_existing` and the other scheduling theorems
 (Props/C09.lean) are about `schedule`, i.e. `scheduleWith` for every resolution of the two look-ups.
@@ -17,7 +17,7 @@ feeds the look-up results `(key, time stamp of that key)`.  `toGen` renames the 
 Rust variants.  What the look-ups return (any entry with that name) stays in the model
 (`optChoices`) and is tied to the code by the `queue` stream only.
 -/
-import KrillModel.Generated.PureFns
+import KrillModel.Generated.PureFnsC09
 import KrillModel.Queue.Queue
 namespace KM.Props.C09Src
 open KM.Queue
